@@ -12,6 +12,7 @@ Theorems about the constraint-insertion model (`Spade/Algo/Constrain.lean`), for
 -/
 import Spade.Algo.Constrain
 import Spade.Proofs.FlagInv
+import Spade.Proofs.WInv
 namespace Spade
 
 /-- the empty triangulation (start of the example histories) -/
@@ -442,6 +443,28 @@ theorem LInv.removeConstraintEdgeM {s : St} (hs : LInv s) (a b : Nat) (t : St) (
       exact LInv.legalizeLoop _ _ (hs.unmarkFlag _) _
     · obtain ⟨rfl, _⟩ := Prod.mk.inj (Option.some.inj h)
       exact hs
+
+/-- the full invariant (links, counter-clockwise faces, face anchors, vertex anchors) does not
+mention the constraint flags -/
+theorem WInv.unmarkFlag {s : St} (hw : WInv s) (u : Nat) : WInv (s.unmarkFlag u) :=
+  ⟨⟨hw.cinv.links.unmarkFlag u, hw.cinv.ccw⟩, hw.ft, hw.vb⟩
+
+/-- `remove_constraint_edge` keeps the full invariant: clearing the flag changes no link or position,
+and every flip of the legalisation that follows keeps the faces counter-clockwise
+(`flip_keeps_ccw`).  In particular locate stays sound afterwards (`WInv.locate_sound`). -/
+theorem WInv.removeConstraintEdgeM {s : St} (hw : WInv s) (a b : Nat) (t : St) (ans : Bool)
+    (h : s.removeConstraintEdgeM a b = some (t, ans)) : WInv t := by
+  unfold St.removeConstraintEdgeM at h
+  cases he : s.edgeFromNeighbors a b with
+  | none => rw [he] at h; cases h
+  | some e =>
+    rw [he] at h
+    simp only at h
+    split at h
+    · obtain ⟨rfl, _⟩ := Prod.mk.inj (Option.some.inj h)
+      exact (hw.unmarkFlag _).legalizeEdge _ _
+    · obtain ⟨rfl, _⟩ := Prod.mk.inj (Option.some.inj h)
+      exact hw
 
 end St
 end Spade
